@@ -278,6 +278,16 @@ func Drained() bool {
 	return true
 }
 
+// CloseListener closes the listener bound to addr, if any (a server process going away).
+func CloseListener(addr string) {
+	w.mu.Lock()
+	l := w.listeners[addr]
+	w.mu.Unlock()
+	if l != nil {
+		l.Close()
+	}
+}
+
 // SetBlackhole makes dials to addr hang until their timeout (and back).
 func SetBlackhole(addr string, on bool) { w.mu.Lock(); w.blackhole[addr] = on; w.mu.Unlock() }
 
